@@ -6,7 +6,20 @@ from . import engine
 from .props import ASSUMPTIONS, PROPS
 
 
+def _guard():
+    """a runaway rule (state explosion on an unforeseen code shape) must end as CHECK-BROKEN, not as a hung check that eats
+    the machine: cap the wall time of one check (the explorer caps its own memory, typestate.py)"""
+    import signal
+
+    def on_alarm(signum, frame):
+        print("CHECK-BROKEN the check exceeded its wall-time limit (a rule did not terminate on this tree)")
+        os._exit(2)
+    signal.signal(signal.SIGALRM, on_alarm)
+    signal.alarm(int(os.environ.get("KV_TIME_LIMIT_S", "2400")))
+
+
 def main():
+    _guard()
     ap = argparse.ArgumentParser()
     ap.add_argument("prop")
     ap.add_argument("--tier", default=os.environ.get("VERIF_TIER", "quick"))
@@ -31,6 +44,9 @@ def main():
                                  technique=p.get("technique", ""), extra_cov=extra)
     except RuntimeError as e:
         print(str(e))
+        return 2
+    except MemoryError:
+        print(f"CHECK-BROKEN property={a.prop} the check exceeded its memory limit (a rule's state space exploded on this tree)")
         return 2
     if a.tier == "thorough" and rc == 0 and not os.environ.get("KV_NO_SENSITIVITY"):
         # (2) sensitivity: every catalogued one-edit mutant of this property's rules, applied to a scratch worktree
